@@ -193,8 +193,10 @@ func (p *Provider) ruleSetsChanged(evt fsnotify.Event) error {
 	switch {
 	case evt.Has(fsnotify.Create) || evt.Has(fsnotify.Write) || evt.Has(fsnotify.Chmod):
 		err = p.ruleSetCreatedOrUpdated(evt.Name)
-	case evt.Has(fsnotify.Remove):
-		err = p.ruleSetDeleted(evt.Name)
+	case evt.Has(fsnotify.Remove) || evt.Has(fsnotify.Rename):
+		// The current state of the file decides: a file moved away is gone like a removed one,
+		// and a remove notification may arrive after the file has already been created again.
+		err = p.ruleSetCreatedOrUpdated(evt.Name)
 	}
 
 	return err
